@@ -333,6 +333,24 @@ fn probes(mon: &mut C09) {
                 script(&mut w, mon, t);
             }
         }
+        // split off a zero-valued liquidity coin first, so that a zero-valued withdrawal can follow the full one
+        w.profile.degenerate_permille = 0;
+        for _ in 0..6 {
+            if w.dead {
+                break;
+            }
+            let liq = w.spendable().into_iter().find(|(_, c)| c.coin_data.denom == key.liq_token_denom() && c.coin_data.value.0 > 0);
+            let mel = w.spendable().into_iter().find(|(_, c)| c.coin_data.denom == Denom::Mel && c.coin_data.value.0 < MAX_COINVAL);
+            if let (Some(liq), Some(mel)) = (liq, mel) {
+                let covhash = w.owners[0].addr_new;
+                let payload = vec![melstructs::CoinData { covhash, value: melstructs::CoinValue(0), denom: key.liq_token_denom(), additional_data: Bytes::new() }];
+                let t = w.complete(TxKind::Normal, vec![mel, liq], payload, vec![], 0).map(|t| (t, "degenerate:make-zero-liquidity-coin".to_string()));
+                if t.is_some() {
+                    script(&mut w, mon, t);
+                    break;
+                }
+            }
+        }
         // withdraw everything we hold of its liquidity token
         for _ in 0..20 {
             if w.dead {
@@ -341,6 +359,29 @@ fn probes(mon: &mut C09) {
             let t = w.gen_withdraw().filter(|(t, _)| t.data == key.to_bytes());
             if t.is_some() {
                 script(&mut w, mon, t);
+            }
+        }
+        // zero-valued withdrawal against the (possibly empty) pool
+        for _ in 0..4 {
+            if w.dead {
+                break;
+            }
+            let zero = w.spendable().into_iter().find(|(_, c)| c.coin_data.value.0 == 0 && c.coin_data.denom == key.liq_token_denom());
+            let mel = w.spendable().into_iter().find(|(_, c)| c.coin_data.denom == Denom::Mel && c.coin_data.value.0 <= MAX_COINVAL);
+            if let (Some(z), Some(m)) = (zero, mel) {
+                let inputs = vec![m.clone(), z.clone()];
+                let mut tx = Transaction {
+                    kind: TxKind::LiqWithdraw,
+                    inputs: inputs.iter().map(|x| x.0).collect(),
+                    outputs: vec![melstructs::CoinData { covhash: w.owners[0].addr_new, value: melstructs::CoinValue(0), denom: key.liq_token_denom(), additional_data: Bytes::new() }],
+                    fee: m.1.coin_data.value,
+                    covenants: vec![],
+                    data: key.to_bytes(),
+                    sigs: vec![],
+                };
+                w.authorise(&mut tx, &inputs);
+                mon.journal("C09 probe zero-valued withdrawal against emptied pool");
+                script(&mut w, mon, Some((tx, "degenerate:zero-valued-withdrawal".into())));
             }
         }
         // swap against the (possibly empty) pool
